@@ -499,11 +499,12 @@ def families(ctx):
 
 
 def run(ctx):
-    from . import c08_extra
-    ctx.run_families(families(ctx) + c08_extra.families(ctx))
+    from . import c08_extra, c08_merge
+    ctx.run_families(families(ctx) + c08_extra.families(ctx) + c08_merge.families(ctx))
     ctx.bounds += ['one operation from an arbitrary state satisfying the representation invariant (7 conjuncts, see evidence samples) => operation histories of any length; ids range over an uninterpreted sort']
     ctx.assumptions += ['abstract-map model of linked_hash_map::LinkedHashMap / linked_hash_set::LinkedHashSet (entry, Vacant/OccupiedEntry, or_default, insert, remove, get, contains_key, is_empty, one-element collect) as SMT arrays',
                         'Policy::{id,template,template_arc}, Template::id as uninterpreted functions; Arc<Template> equality = equality of abstract templates (what `==` compares on Template / Policy / TemplateBodyImpl / StaticPolicy is its own obligation: every component but the source location)',
-                        'semantics of a linked policy vs. substituted static policy, merge_policyset, Template::link / check_binding and the cedar-policy api.rs wrapper maps are NOT covered']
+                        'merge_policyset: `self` arbitrary (abstract maps), `other` one static policy / one template / one template with one link with symbolic ids and contents; get_fresh_id is a stub (an id bound in neither set, different from earlier ones); Template::new_id / Policy::new_id / new_template_id are uninterpreted with their defining equations',
+                        'semantics of a linked policy vs. substituted static policy, larger `other` sets in a merge, Template::link / check_binding and the cedar-policy api.rs wrapper maps are NOT covered']
     return ctx.finish('Solver-decided inductive step for the policy-set edit operations executed from the MIR of the current tree over abstract maps (SMT arrays, quantified invariants): every operation preserves the '
-                      'representation invariant (no link without its template, ids consistent across the three maps), a failed operation leaves all three maps extensionally unchanged, and a successful one changes exactly the ids it names.')
+                      'representation invariant (no link without its template, ids consistent across the three maps), a failed operation leaves all three maps extensionally unchanged, and a successful one changes exactly the ids it names; merge_policyset with a small symbolic `other` preserves the invariant, loses nothing of `self` and brings in everything of `other`; `==` on policies / templates compares every component but the source location.')
